@@ -58,6 +58,37 @@ type hprog struct {
 	Reps int `json:"reps,omitempty"`
 	// ReqMax > 0 limits the length of request lists (chains: requesting the last task runs everything)
 	ReqMax int `json:"req_max,omitempty"`
+	// Variants: the spokfile itself may be edited between invocations. Each variant is the subset
+	// (by index) of Tasks that the spokfile defines; variant 0 is the initial one. Empty = all tasks, fixed.
+	Variants [][]int `json:"variants,omitempty"`
+}
+
+// present reports whether task i is defined in variant v.
+func (p hprog) present(v, i int) bool {
+	if len(p.Variants) == 0 {
+		return true
+	}
+	for _, k := range p.Variants[v] {
+		if k == i {
+			return true
+		}
+	}
+	return false
+}
+
+func (p hprog) textOf(v int) string {
+	if len(p.Variants) == 0 {
+		return p.text()
+	}
+	q := p
+	q.Variants = nil
+	q.Tasks = nil
+	for i, t := range p.Tasks {
+		if p.present(v, i) {
+			q.Tasks = append(q.Tasks, t)
+		}
+	}
+	return q.text()
 }
 
 const absent = "-"
@@ -138,6 +169,9 @@ func histCatalogue() []hprog {
 			Files: []hfile{lit("src.txt"), lit("gen.txt")}},
 		{Name: "P15-independent-generator", Tasks: []htask{{Name: "ta", EffFile: 2, EffVal: "gen"}, {Name: "tb", Globs: []string{"*.src"}}},
 			Files: []hfile{globf("x.src", "v0", "v1"), globf("g.src", absent, "gen")}},
+		// the spokfile itself changes between invocations: a task is removed, comes back, is renamed
+		{Name: "P18-spokfile-edited", ReqMax: 1, Tasks: []htask{{Name: "ta", Lits: []string{"a.txt"}}, {Name: "tb", Lits: []string{"b.txt"}}, {Name: "tc", Lits: []string{"b.txt"}}},
+			Variants: [][]int{{0, 1}, {0}, {0, 2}}, Files: []hfile{globf("a.txt", "v0"), lit("b.txt")}},
 		{Name: "P8-three-tasks", Tasks: []htask{{Name: "ta", Lits: []string{"a.txt"}}, {Name: "tb", Lits: []string{"b.txt"}}, {Name: "tc", Deps: []string{"ta", "tb"}}}, Files: []hfile{lit("a.txt"), lit("b.txt")}},
 	}
 }
@@ -236,10 +270,12 @@ type hdisk struct {
 	// Extra: any other file inside .spok (besides cache.json, .gitignore, CACHEDIR.TAG), e.g. a
 	// temporary or backup file an implementation may keep there; "name=content" sorted
 	Extra []string `json:"extra,omitempty"`
+	// Var: which variant of the spokfile is in the project (see hprog.Variants)
+	Var int `json:"var,omitempty"`
 }
 
 func (d hdisk) key() string {
-	return strings.Join(d.Files, "|") + fmt.Sprintf("#%v#%v#", d.SpokDir, d.HasCache) + d.Cache + "#" + strings.Join(d.Extra, "\x00")
+	return strings.Join(d.Files, "|") + fmt.Sprintf("#%v#%v#", d.SpokDir, d.HasCache) + d.Cache + "#" + strings.Join(d.Extra, "\x00") + "#" + strconv.Itoa(d.Var)
 }
 
 type hmodel struct {
@@ -272,6 +308,8 @@ func (o hop) String() string {
 	switch o.Kind {
 	case "none":
 		return "(no edit)"
+	case "spokfile":
+		return fmt.Sprintf("edit spokfile to variant %d", o.File)
 	case "edit":
 		return fmt.Sprintf("set[%d]=%s", o.File, o.Val)
 	case "rmcache":
@@ -299,7 +337,17 @@ func histOps(p hprog, d hdisk, withForce bool) []hop {
 			}
 		}
 	}
-	names := p.taskNames()
+	var names []string
+	for i, t := range p.Tasks {
+		if p.present(d.Var, i) {
+			names = append(names, t.Name)
+		}
+	}
+	for v := range p.Variants {
+		if v != d.Var {
+			ops = append(ops, hop{Kind: "spokfile", File: v})
+		}
+	}
 	var reqs [][]string
 	var rec func(cur []string)
 	rec = func(cur []string) {
@@ -420,7 +468,7 @@ func materialise(sb *proj.Sandbox, p hprog, d hdisk) {
 }
 
 func readDisk(sb *proj.Sandbox, p hprog, before hdisk) hdisk {
-	d := hdisk{Files: make([]string, len(p.Files))}
+	d := hdisk{Files: make([]string, len(p.Files)), Var: before.Var}
 	for i, f := range p.Files {
 		b, err := os.ReadFile(filepath.Join(sb.Dir, f.Path))
 		if err != nil {
@@ -452,6 +500,7 @@ func readDisk(sb *proj.Sandbox, p hprog, before hdisk) hdisk {
 
 // execRun runs a run-op under every iteration order; distinct outcomes only.
 func execRun(sb *proj.Sandbox, p hprog, text string, d hdisk, op hop) []hexec {
+	text = p.textOf(d.Var)
 	var outs []hexec
 	seen := map[string]bool{}
 	reps := 1
@@ -496,6 +545,8 @@ func applyEdit(d hdisk, op hop) hdisk {
 	nd := d
 	nd.Files = append([]string{}, d.Files...)
 	switch op.Kind {
+	case "spokfile":
+		nd.Var = op.File
 	case "edit":
 		nd.Files[op.File] = op.Val
 	case "rmcache":
@@ -704,6 +755,7 @@ func binExec(sb *proj.Sandbox, p hprog, text string, d hdisk, op hop, n int) (he
 	if os.Getenv("VERIF_SPOK") == "" || op.Fault != "" {
 		return hexec{}, false
 	}
+	text = p.textOf(d.Var)
 	materialise(sb, p, d)
 	os.WriteFile(filepath.Join(sb.Dir, "spokfile"), []byte(text), 0o644)
 	sb.SetFailing(op.Fail, p.taskNames())
@@ -1013,6 +1065,7 @@ func histReplay(path string) int {
 	bad := 0
 	for i, s := range trace {
 		fmt.Printf("step %d: %s\n", i+1, s.Op.String())
+		text = p.textOf(st.D.Var)
 		if s.Op.Kind != "run" {
 			if s.Op.Kind == "rmcache" {
 				for k := range st.M.Last {
